@@ -914,6 +914,19 @@ func (g *Gen) genAny(n int) *Term {
 			}
 			return must(Call(g.Sc, "Fast", args...))
 		case 5:
+			if !g.NoCalls && r.Bool() {
+				// nil as an argument next to another argument (reflect call path)
+				ts := []reflect.Type{IntT, StrT, BoolT, FloatT}
+				x := g.Of(ts[r.Intn(len(ts))], n-2)
+				switch r.Intn(3) {
+				case 0:
+					return must(Call(g.Sc, "EqAny", x, Nil()))
+				case 1:
+					return must(Call(g.Sc, "EqAny", Nil(), x))
+				default:
+					return must(Call(g.Sc, "EqAny", x, g.Of(ts[r.Intn(len(ts))], 1)))
+				}
+			}
 			// conditional with arms of different types
 			c := g.genBool(n / 3)
 			return must(Cond(g.Sc, c, g.genInt(n/3), g.genStr(n/3)))
